@@ -226,7 +226,9 @@ CLAIMED = {
              "(model tied to the real processStartTag/processEndTag through a recording subclass). PARTIAL: module-"
              "level caches and threads are not proved; histories of 2-5 calls on ONE parser (strict aborts, sources "
              "that raise, table text, pre, RCDATA, foreign content, fragments) are compared call by call with fresh "
-             "parsers; thorough adds a thread soak. One fix in /repo (the leak quoted in the property).",
+             "parsers, and histories of calls on ONE HTMLSerializer (strict aborts inside raw-text elements, failing or "
+             "abandoned token sources) with fresh serializers; thorough adds a thread soak. One fix in /repo (the leak "
+             "quoted in the property).",
         design_ref="DESIGN.md 3 C12",
         note="The frame argument is syntactic (no __setattr__, checked); per-parse objects (nodes, tokens) are outside "
              "its scope by construction.",
@@ -320,7 +322,8 @@ CLAIMED = {
              "for EVERY walker stream (any names, attributes, text, comments) and every option set the sanitized "
              "output is re-tokenized by the WHATWG tokenizer S_tok into exactly the sanitized stream, and every token "
              "read back is a character or a tag whose name and attribute names are on the allow-lists (the lexical "
-             "half of the property as one theorem, on top of C08's stream theorem); comments never reach the "
+             "half of the property as one theorem, on top of C08's stream theorem), and, with the RCDATA switch after "
+             "textarea made explicit, as exactly the sanitized units the way a parser reads them; comments never reach the "
              "serializer; the sanitizer sits between sorting and omission. PARTIAL: structural re-interpretation on "
              "re-parse (tree level: namespace change of ALLOWED tags, trees no serialization reproduces) needs tree "
              "construction; decided by re-parsing as document and in 11 fragment contexts, scripting on/off, with "
